@@ -47,7 +47,8 @@ def gen_history(draw):
             steps.append({"k": "create", "kind": draw(st.sampled_from(CREATE_KINDS)), "who": who})
             live += 1
         elif k.startswith("destroy"):
-            steps.append({"k": "destroy", "which": k.split("-")[1], "n": draw(st.integers(0, 50))})
+            steps.append({"k": "destroy", "which": k.split("-")[1], "n": draw(st.integers(0, 50)),
+                          "batch": draw(st.sampled_from([None, None, "then-fail", "then-fail-continue", "then-ok", "after-ok"]))})
             live -= 1
             dead += 1
             if draw(st.booleans()):
@@ -166,7 +167,20 @@ class Run(object):
         newest = o is max(self.live, key=lambda x: int(x["uid"]))
         others_before = self.others_snapshot(o["uid"])
         cli = H.Client(self.srv, o["owner"])
-        r = cli.one({"op": "Destroy", "uid": o["uid"]})
+        mode = step.get("batch")
+        d = {"op": "Destroy", "uid": o["uid"]}
+        if mode is None:
+            r = cli.one(d)
+        else:
+            # the Destroy travels in a batch: followed by a failing / succeeding item, or preceded by one
+            bad = {"op": "Get", "uid": "999999"}
+            good = {"op": "Query"}
+            items = {"then-fail": [d, bad], "then-fail-continue": [d, bad, good], "then-ok": [d, good],
+                     "after-ok": [good, d]}[mode]
+            rr = cli.request(items, **({"cont": "CONTINUE"} if mode == "then-fail-continue" else {}))
+            its = rr["items"] or []
+            r = next((i for i in its if i["op"] == "Destroy"), {"status": "MISSING", "reason": None})
+            self.classes.append("destroy-in-batch:" + mode)
         if r["status"] != "SUCCESS":
             self.bucket("C07|destroy-failed|%s" % r["reason"], repr(r))
             return
